@@ -2,6 +2,7 @@ import JwtModel.Scope
 import JwtProofs.Encode
 import Props.C12
 import Props.CodecRoundTrip
+import Props.CodecText
 /-!
 # C14 — scoped signing keys and the one-call user-token issuer honour their contract
 
